@@ -313,6 +313,10 @@ StateOfItems(items) ==
   IN [facts |-> {FactOfTree(items[i]) : i \in F},
       fl    |-> [g \in {FactOfTree(items[i].c[2]) : i \in A} |->
                     items[CHOOSE i \in A : FactOfTree(items[i].c[2]) = g].c[3].v],
+      \* the exact text of each value (canonical text of the double), when the reader supplied it
+      ex    |-> [g \in {FactOfTree(items[i].c[2]) : i \in A} |->
+                    LET tok == items[CHOOSE i \in A : FactOfTree(items[i].c[2]) = g].c[3]
+                    IN  IF "x" \in DOMAIN tok THEN tok.x ELSE "?"],
       shapeOk |-> /\ \A i \in DOMAIN items : IsList(items[i]) /\ Len(items[i].c) > 0 /\ IsSym(items[i].c[1])
                   /\ \A i \in DOMAIN items : HeadSym(items[i]) = "=" => i \in A
                   /\ \A i \in F : AllSyms(items[i].c)
